@@ -11,7 +11,10 @@ import KafkaVerif.Gen.ConnLegacy
 namespace KV.ConnOps
 open KV.Gen.ConnLegacy
 
-def has (method helper : String) : Bool := (callsOf method).contains helper
+def has (method helper : String) : Bool :=
+  (callsOf method).contains helper &&
+  (helper != "expectZeroSize" || expectZeroSizeChecks) &&
+  (helper != "discardOnKafkaError" || discardOnKafkaErrorDrains)
 
 /-- operations whose read closure is `expectZeroSize((&response).readFrom(&c.rbuf, size))`, error codes checked after -/
 def simpleOp (method : String) (prog : List Step) (skip : List Int := []) : OpSpec :=
